@@ -271,6 +271,50 @@ def rule_paths(ctx: Ctx) -> None:
     ctx.tri("2-paths", wr, wr.node, bool(its) and not part, bool(part), "every input is written", "only part of the inputs is written: RunInfo.load fails on the missing files", "writing of the inputs not recognised", key="write-all")
 
 
+def rule_path_names(ctx: Ctx) -> None:
+    """File names are derived from input/output names by appending: a name may contain dots (scopes: `s.x`), so
+    `Path.with_suffix` / `.stem` / `.with_name` - which treat everything after the last dot as a suffix - must not be applied
+    to a path whose last component is such a name (`inputs/s.x` and `inputs/s.a` would both become `inputs/s.cloudpickle`)."""
+    P = ctx.prog
+    n = 0
+    for fn in P.functions_in(RI):
+        name_params = [p_.arg for p_ in fn.params if p_.annotation is not None and norm(p_.annotation) in ("str", "OUTPUT_TYPE") and "name" in p_.arg]
+        if not name_params:
+            continue
+        for c in [c for c in ast.walk(fn.node) if isinstance(c, (ast.Call, ast.Attribute))]:
+            attr = c.func.attr if isinstance(c, ast.Call) and isinstance(c.func, ast.Attribute) else (c.attr if isinstance(c, ast.Attribute) else None)
+            if attr not in ("with_suffix", "with_name", "with_stem", "stem", "suffix"):
+                continue
+            recv = c.func.value if isinstance(c, ast.Call) else c.value
+            tail = recv.right if isinstance(recv, ast.BinOp) and isinstance(recv.op, ast.Div) else recv
+            if any(isinstance(x, ast.Name) and x.id in name_params for x in ast.walk(tail)):
+                n += 1
+                ctx.add("2-paths", fn, c, False, f"`{norm(c)[:60]}` applies `.{attr}` to a path that ends in the name `{name_params[0]}`: for a dotted (scoped) name the part after the last dot is taken for a suffix, so different names share one file", key=f"suffix {fn.name}")
+    ctx.add("2-paths", RI, "", True, f"path helpers scanned for suffix operations on name components ({n} found)", key="suffix-scan")
+    # a subclass constructor must not rebind, after super().__init__(), an attribute that the base constructor has already filled
+    # (DictArray.__init__ loads the persisted elements into self._dict; rebinding it afterwards drops them)
+    m = 0
+    for cls in [c for c in P.classes.values() if c.module.name.startswith("pipefunc.map._storage_array")]:
+        init = dict.get(cls.methods, "__init__")
+        if init is None:
+            continue
+        sup = [st for st in init.node.body if isinstance(st, ast.Expr) and isinstance(st.value, ast.Call) and norm(st.value.func) == "super().__init__"]
+        if not sup:
+            continue
+        base_attrs: set[str] = set()
+        for b in P.mro(cls.qualname)[1:]:
+            bi = dict.get(b.methods, "__init__")
+            if bi is not None:
+                base_attrs |= {t.attr for a in ast.walk(bi.node) if isinstance(a, (ast.Assign, ast.AnnAssign)) for t in (a.targets if isinstance(a, ast.Assign) else [a.target]) if isinstance(t, ast.Attribute) and norm(t.value) == "self"}
+        after = [st for st in init.node.body if st.lineno > sup[0].lineno]
+        for a in [a for st in after for a in ast.walk(st) if isinstance(a, (ast.Assign, ast.AnnAssign))]:
+            for t in (a.targets if isinstance(a, ast.Assign) else [a.target]):
+                if isinstance(t, ast.Attribute) and norm(t.value) == "self" and t.attr in base_attrs:
+                    m += 1
+                    ctx.add("4-rebuild", init, a, False, f"`{norm(a)[:60]}` rebinds `self.{t.attr}` after super().__init__() has set it up (the base constructor loads the persisted elements into it): a reopened array comes back empty", key=f"rebinds {cls.name}.{t.attr}")
+    ctx.add("4-rebuild", "pipefunc.map._storage_array", "", True, f"subclass constructors scanned for rebinding base state after super().__init__() ({m} found)", key="rebind-scan")
+
+
 def rule_process(ctx: Ctx) -> None:
     P = ctx.prog
     tainted = _proxy_fields(ctx)
@@ -380,7 +424,7 @@ def rule_persist(ctx: Ctx) -> None:  # noqa: C901
 
 
 def check(ctx: Ctx) -> None:
-    for rule in (rule_table, rule_fresh_load, rule_paths, rule_process, rule_rebuild, rule_persist):
+    for rule in (rule_table, rule_fresh_load, rule_paths, rule_path_names, rule_process, rule_rebuild, rule_persist):
         ctx.run(rule)
 
 
